@@ -218,6 +218,14 @@ Proof.
   split; [eapply same_class_has_ty; [apply A|apply H]|eapply IH; [apply A|apply H]].
 Qed.
 
+Lemma all2_flows_row r : forall e1 env,
+  all2 (flows mx) e1 env = true -> row_has_types mx r e1 = true -> row_has_types mx r env = true.
+Proof.
+  induction r as [|v r IH]; intros [|t1 e1] [|t2 e2] A H; cbn in *; try discriminate; [reflexivity|].
+  apply andb_true_iff in A. apply andb_true_iff in H. apply andb_true_iff.
+  split; [eapply flows_has_ty; [apply A|apply H]|eapply IH; [apply A|apply H]].
+Qed.
+
 Lemma in_distinct_by eq x l : In x (distinct_by eq l) -> In x l.
 Proof.
   induction l as [|y l IH]; cbn; [tauto|]. intros [->|H]; [left; reflexivity|].
@@ -342,7 +350,12 @@ Section QuerySound.
       rewrite app_length, (map_opt_length _ _ _ K), (map_opt_length _ _ _ A). reflexivity.
     - apply IHq; exact H.
     - destruct (schema q1) as [el|]; [|discriminate]. destruct (schema q2) as [er|]; [|discriminate].
-      destruct (all2 same_class el er); inversion H; subst. apply IHq1; reflexivity.
+      destruct op.
+      + destruct (Nat.eqb (length el) (length er)) eqn:L; [|discriminate]. apply Nat.eqb_eq in L.
+        match type of H with (if ?c then _ else _) = _ => destruct c; inversion H; subst end.
+        rewrite map_length, combine_length, <- L, Nat.min_id. apply IHq1; reflexivity.
+      + destruct (all2 same_class el er); inversion H; subst. apply IHq1; reflexivity.
+      + destruct (all2 same_class el er); inversion H; subst. apply IHq1; reflexivity.
     - destruct (schema q) as [e|]; [|discriminate]. destruct (map_opt _ keys); inversion H; subst. apply IHq; reflexivity.
     - apply IHq; exact H.
   Qed.
@@ -420,10 +433,20 @@ Section QuerySound.
       apply in_distinct_by in Hin. eapply IHq; eauto.
     - (* set operations *)
       destruct (schema q1) as [el|] eqn:E1; [|discriminate]. destruct (schema q2) as [er|] eqn:E2; [|discriminate].
-      destruct (all2 same_class el er) eqn:C; inversion H; subst. clear H.
-      assert (PL : forall a, In a (qev q1) -> row_has_types mx a env = true) by (intros; eapply IHq1; eauto).
-      assert (PR : forall b, In b (qev q2) -> row_has_types mx b env = true)
-        by (intros; eapply all2_class_row; [exact C|eapply IHq2; eauto]).
+      assert (PL0 : forall a, In a (qev q1) -> row_has_types mx a el = true) by (intros; eapply IHq1; eauto).
+      assert (PR0 : forall b, In b (qev q2) -> row_has_types mx b er = true) by (intros; eapply IHq2; eauto).
+      assert (PLR : (forall a, In a (qev q1) -> row_has_types mx a env = true) /\
+                    (forall b, In b (qev q2) -> row_has_types mx b env = true)).
+      { destruct op.
+        - destruct (Nat.eqb (length el) (length er)); [|discriminate].
+          match type of H with (if ?c then _ else _) = _ => destruct c eqn:C; inversion H; subst end.
+          apply andb_true_iff in C. destruct C as [CL CR].
+          split; intros x Hx; [eapply all2_flows_row; [exact CL|auto]|eapply all2_flows_row; [exact CR|auto]].
+        - destruct (all2 same_class el er) eqn:C; inversion H; subst.
+          split; intros x Hx; [auto|eapply all2_class_row; [exact C|auto]].
+        - destruct (all2 same_class el er) eqn:C; inversion H; subst.
+          split; intros x Hx; [auto|eapply all2_class_row; [exact C|auto]]. }
+      destruct PLR as [PL PR]. clear H.
       cbn [q_setop sql_qsem] in Hin. unfold sql_setop in Hin.
       destruct op, all.
       + apply in_app_or in Hin. destruct Hin; auto.
@@ -488,11 +511,21 @@ Example coerce_table :
      [TF64; TF64; TF64; TF64; TF64; TF64]].
 Proof. reflexivity. Qed.
 
-(* the class union-all-mixed-types is inhabited, and only by UNION ALL of differently typed sides *)
-Example union_mixed_witness :
-  let q := QSetOp SUnion true (QProject (QTable 0 2) [ECol 1]) (QProject (QTable 0 2) [ECol 0]) in
-  schema_of [[TI64; TI32]] q = Some [TI32] /\ known_union_mixed [[TI64; TI32]] q = true
-  /\ known_union_mixed [[TI64; TI32]] (QSetOp SUnion false (QProject (QTable 0 2) [ECol 1]) (QProject (QTable 0 2) [ECol 0])) = false.
+(* regression witness of the class union-all-mixed-types for numeric pairs (closed by the fix: commit f5f2dbc):
+   Int32 UNION ALL Int64 is planned Int64 in both orders, an integer with a float Float64, Float32 with itself
+   Float32; common_union_type on every numeric pair *)
+Example union_regression :
+  let u a b := QSetOp SUnion true (QProject (QTable 0 3) [ECol a]) (QProject (QTable 0 3) [ECol b]) in
+  schema_of [[TI64; TI32; TF32]] (u 1%nat 0%nat) = Some [TI64] /\ schema_of [[TI64; TI32; TF32]] (u 0%nat 1%nat) = Some [TI64]
+  /\ schema_of [[TI64; TI32; TF32]] (u 1%nat 2%nat) = Some [TF64] /\ schema_of [[TI64; TI32; TF32]] (u 2%nat 2%nat) = Some [TF32]
+  /\ schema_strict [[TI64; TI32; TF32]] (u 1%nat 2%nat) = None
+  /\ map (fun a => map (union_ty a) [TI8; TI16; TI32; TI64; TF32; TF64]) [TI8; TI16; TI32; TI64; TF32; TF64]
+     = [[TI8;  TI16; TI32; TI64; TF64; TF64];
+        [TI16; TI16; TI32; TI64; TF64; TF64];
+        [TI32; TI32; TI32; TI64; TF64; TF64];
+        [TI64; TI64; TI64; TI64; TF64; TF64];
+        [TF64; TF64; TF64; TF64; TF32; TF64];
+        [TF64; TF64; TF64; TF64; TF64; TF64]].
 Proof. repeat split. Qed.
 
 (* satisfiable hypotheses: a well-typed query with a mixed CASE over a conforming database, and its rows *)
